@@ -59,7 +59,7 @@ NOTES = {
     'C10-j': 'as built only the thorough tier saw it (equal-but-distinguishable neighbours such as 1, 1.0, True are rare in the streams); a mapper producing such values was added and the quick tier sees it',
     'C05-j': 'needs window slot indices >= 2**20 (a quarter of a million groups under an overlapping roll): an ultra-wide scenario (70 000 / 270 000 groups) was added to the thorough tier of C05, next to the ultra-long single key',
     'C14-j': 'NOT caught, deliberately: del_map (not among the operations the statement lists; group_by calls it only immediately before del_key of the same parent, where recycling the index is legitimate) hands its index back while the entry stays readable. Visible only by calling del_map on a parent that stays alive, which neither the statement nor any operator does',
-    'C02-j': 'caught by C07 (the time_split model); C02 generates time_split lifetimes too but its quick and thorough runs did not hit the timing relation (stale last timestamp from the previous window, closing item not included, inactive time-out)',
+    'C02-j': 'caught by C07 (the time_split model). C02 is rightly silent: the change moves a window *boundary* (a stale last-timestamp makes the window after an excluded closing item expire early); every observed lifetime is still a function of the items it received, which is all C02 compares - where the boundaries fall is C07\'s subject',
     'C11-i': 'needs a time-out of zero (a clean-up replaced `is not None` by a truth test): zero time-outs are generated now (the first item of a key then expires the window it has just opened: empty leading windows are typed accordingly)',
     'C05-i': 'NOT caught, deliberately: roll no longer restarts its stride grid after a *handled* key error. It needs a mux error that travels through roll to handlers that are not directly behind the failing operator (C13 specifies handlers placed directly after; C05 says nothing about errors); whether the grid restarts after such an error is not specified',
     'C19-i': 'as built caught by C16 only (several compressors alive at once, chunks interleaved by the seeded schedule); C19 now also writes two files at the same time from interleaved hot sources (one source split into two files) and reads both back',
